@@ -31,6 +31,25 @@ fn esc(s: &str) -> String {
     s.replace('\\', "\\\\").replace('\n', "\\n").replace('\t', "\\t")
 }
 
+thread_local! {
+    // The stdlib is translated once; the environment is rebuilt after a panic (a RefCell may be left borrowed).
+    static ENV: RefCell<Option<std::rc::Rc<RefCell<Environment<io::Sink, io::Sink>>>>> = RefCell::new(None);
+}
+
+fn shared_env() -> std::rc::Rc<RefCell<Environment<io::Sink, io::Sink>>> {
+    ENV.with(|e| {
+        let mut e = e.borrow_mut();
+        if e.is_none() {
+            *e = Some(std::rc::Rc::new(RefCell::new(Environment::new(io::sink(), io::sink()))));
+        }
+        e.as_ref().unwrap().clone()
+    })
+}
+
+fn reset_env() {
+    ENV.with(|e| *e.borrow_mut() = None);
+}
+
 fn run_case(mode: &str, src: &str) -> String {
     match mode {
         "shape" => match parse(OffsetStrIter::new(src), None) {
@@ -48,7 +67,7 @@ fn run_case(mode: &str, src: &str) -> String {
             Err(e) => format!("ERR\t{}", esc(&format!("{}", e))),
         },
         "eval" => {
-            let env = RefCell::new(Environment::new(io::sink(), io::sink()));
+            let env = shared_env();
             let import_paths = vec![];
             let mut builder = FileBuilder::new(".", &import_paths, &env);
             match builder.eval_string(src) {
@@ -60,7 +79,7 @@ fn run_case(mode: &str, src: &str) -> String {
             Ok(toks) => {
                 let parts: Vec<String> = toks
                     .iter()
-                    .map(|t| format!("{:?}|{}|{}|{}|{}", t.typ, esc(&t.fragment), t.pos.line, t.pos.column, t.pos.offset))
+                    .map(|t| format!("{:?}\x1e{}\x1e{}\x1e{}\x1e{}", t.typ, esc(&t.fragment), t.pos.line, t.pos.column, t.pos.offset))
                     .collect();
                 format!("OK\t{}", parts.join("\x1f"))
             }
@@ -82,6 +101,7 @@ fn main() {
         match r {
             Ok(line) => println!("{}", line),
             Err(p) => {
+                reset_env();
                 let msg = if let Some(s) = p.downcast_ref::<String>() { s.clone() } else if let Some(s) = p.downcast_ref::<&str>() { s.to_string() } else { "panic".to_string() };
                 println!("PANIC\t{}", esc(&msg));
             }
